@@ -159,7 +159,7 @@ def run(prog, rep, tier='quick'):
         v, itp = C.run_function(prog, 'eigenfre', 'eigen', [X(), C.symint('P', 3, 'order')], {'NSIG': C.symint('NSIG', 1), 'method': Const(method), 'NFFT': nf()})
         report_conflicts(rep, 'accumulation', itp, ('s',), method, seen)
         for e in itp.events:
-            if e[0] == 'masked-ufunc' and e[4] == f.qname:
+            if e[0] == 'masked-ufunc' and (e[4] == f.qname or (e[4].startswith('eigenfre.') and e[4] in itp.trace)):
                 fill = e[3]
                 same = fill in ('inf', float('inf'))
                 key = ('masked', normalise(e[1]))
